@@ -47,6 +47,14 @@ def run(chk):
         if first is None:
             r3.bad(vt + ':own', f.loc, 'no used_arch store found')
             continue
+        # the architecture recorded for re-attachment is the variant's own
+        want_arch = P.enum('IMB_ARCH_' + arch.upper())
+        for b, i, ev in f.events(('assign',)):
+            l = cf.strip_casts(ev['lhs'])
+            if l.get('k') == 'mem' and l['f'] == 'used_arch':
+                r3.check(cf.evalc(ev.get('rhs') or {}) == want_arch, vt + ':used_arch', ev['loc'],
+                         '%s records used_arch = %s, not IMB_ARCH_%s: imb_set_pointers_mb_mgr() would re-attach the manager with the handlers of '
+                         'another architecture' % (f.name, cf.render(ev.get('rhs')) if ev.get('rhs') else '?', arch.upper()))
         own, tests = inits.masks_guarding(f, first)
         # failing edge of the own guard sets the error and returns
         for mk, d, killed in tests:
@@ -163,6 +171,7 @@ def run(chk):
     twins.rule_twin_arms(chk, P, 'X2', floor=20)
     twins.rule_common_flag(chk, P, 'Z1', floor=6)
     twins.rule_wrapper_constants(chk, P, 'X3', floor=150)
+    twins.rule_arch_siblings(chk, P, 'X6', floor=60)
     run_r4(chk, P)
     # R3b shared with C20
     from . import c20
